@@ -20,9 +20,9 @@ def mcfg(name, gen=False, maxops=6, procs=(1, 2), slots=(1, 2), stores=(1,), fix
 
 
 class Session:
-    def __init__(self, root, work, kind, stores=(1, 2), alias=(), verbose=0):
+    def __init__(self, root, work, kind, stores=(1, 2), alias=(), verbose=0, homonyms=()):
         env = dict(os.environ, PYTHONPATH=os.environ.get("VERIF_REPO", "/repo"), PYTHONHASHSEED="0", PYTHONDONTWRITEBYTECODE="1")
-        self.p = subprocess.Popen([PY, "-u", SESSION, json.dumps({"root": root, "work": work, "kind": kind, "stores": list(stores), "alias": list(alias), "verbose": verbose, "log": os.path.join(root, "..", "exec.log")})], env=env,
+        self.p = subprocess.Popen([PY, "-u", SESSION, json.dumps({"root": root, "work": work, "kind": kind, "stores": list(stores), "alias": list(alias), "homonyms": list(homonyms), "verbose": verbose, "log": os.path.join(root, "..", "exec.log")})], env=env,
                                   stdin=subprocess.PIPE, stdout=subprocess.PIPE, stderr=subprocess.PIPE, text=True, bufsize=1)
 
     def do(self, op):
@@ -53,7 +53,7 @@ def evict(root, keyval):
 def replay(args):
     """Replay one model history on a real Memory.  The oracle is property-level: the version tag of the returned value must
     be the version of the code that was called; a call that is due to hit must not execute the body."""
-    hid, hist, kind, base = args[:4]; alias = args[4] if len(args) > 4 else ()
+    hid, hist, kind, base = args[:4]; alias = args[4] if len(args) > 4 else (); homonyms = args[5] if len(args) > 5 else ()
     ph = lambda st: 1 if st in alias else st
     d = os.path.join(base, "h%d" % hid); root = os.path.join(d, "cache"); os.makedirs(root)
     sessions = {}; nsess = [0]
@@ -63,7 +63,7 @@ def replay(args):
         if p not in sessions:
             nsess[0] += 1
             w = os.path.join(d, "work%d" % nsess[0]); os.makedirs(w)
-            sessions[p] = Session(root, w, kind, alias=alias, verbose=(0, 1, 11)[hid % 3])
+            sessions[p] = Session(root, w, kind, alias=alias, verbose=(0, 1, 11)[hid % 3], homonyms=homonyms)
         return sessions[p]
     try:
         for n, e in enumerate(hist):
@@ -81,7 +81,7 @@ def replay(args):
                 r = sess(e["p"]).do({"op": "clear", "i": e["i"], "s": e.get("s", 1)})
                 for kk in [kk for kk in must if kk[0] == ph(e.get("s", 1))]: del must[kk]
             elif op == "evict":
-                evict(os.path.join(root, "store%s" % ph(e.get("s", 1))), KEYVAL[e["k"]]); must.pop((ph(e.get("s", 1)), e["k"]), None); r = {}
+                evict(os.path.join(root, "h%s" % e.get("s", 1), "relstore") if homonyms else os.path.join(root, "store%s" % ph(e.get("s", 1))), KEYVAL[e["k"]]); must.pop((ph(e.get("s", 1)), e["k"]), None); r = {}
             elif op in ("call", "force"):
                 v = ocode[(e["p"], e["i"])]; st = e.get("s", 1); k = (ph(st), e["k"]); calls += 1
                 r = sess(e["p"]).do({"op": op, "i": e["i"], "s": st, "k": KEYVAL[e["k"]], "copy": (hid + n) % 3 == 2})
@@ -158,6 +158,14 @@ def body(c):
     c.extra["histories_two_spellings"] = len(h3)
     for h in h3:
         jobs.append((hid, h, "module", base, (2,))); hid += 1
+    # one spelling, two directories (a relative location and a change of working directory): TLC-simulated histories
+    r = tlc.run("MemoryDesign", mcfg("gen5", gen=True, maxops=6 if c.quick else 8, procs=(1,), slots=(1, 2), stores=(1, 2), homonyms=(2,)), simulate="num=%d" % (300 if c.quick else 3000),
+                depth=12, seed=c.seed + 13, workers=1, timeout=900)
+    c.add_tlc("MemoryDesign-simulate[one spelling, two directories]", r)
+    h4 = [h for h in tlc.printed_json(r) if sum(1 for e in h if e["op"] in ("call", "force")) >= 2 and len({e.get("s") for e in h if "s" in e}) == 2]
+    c.extra["histories_homonyms"] = len(h4)
+    for h in h4:
+        jobs.append((hid, h, "module", base, (), (2,))); hid += 1
     # other function kinds: single live slot histories (nested / lambda / __main__ script edited in place)
     single = [h for h in h1 if all(e.get("i", 1) == 1 for e in h)]
     # the histories that matter most for the other kinds: a call, then the definition changes (new object or swapped code), then a call
